@@ -132,7 +132,31 @@ def book_rules(repo, res, rule="BOOK"):
     assigns = [n for n in A.walk(f2.body) if n["k"] == "Assign" and n["left"]["k"] == "Field" and n["left"]["member"] == "used"]
     ok = len(assigns) == 1
     why = f"{len(assigns)} assignments to .used"
-    if ok:
+    if not assigns:
+        # the lookup (and the marking) may live in a helper of the module that the arm calls
+        for hc in P.find_calls(arm["body"]):
+            h = repo.fn(f"{f2.module}::{hc['func']['path'].split('::')[-1]}") if hc["k"] == "Call" and hc["func"]["k"] == "Path" else None
+            if h is None or h is f2:
+                continue
+            ha = [n for n in A.walk(h.body) if n["k"] == "Assign" and n["left"]["k"] == "Field" and n["left"]["member"] == "used"]
+            if len(ha) == 1:
+                henv, hpm = A.collect_envs(h), A.parent_map(h.body)
+                a = ha[0]
+                base = P.peel(A.resolve(a["left"]["base"], henv.get(id(a))))
+                val = A.resolve(a["right"], henv.get(id(a)))
+                # the map is the helper's parameter that receives the target-shell specialisations, the key the one that receives the name
+                okh = base[0] == "mcall" and base[1] == "get_mut" and base[2][0] == "param" and base[3] and base[3][0][0] in ("param", "ref", "deref")
+                gs = [g for g in A.guards_of(a, hpm) if g[0]["k"] == "If"]
+                in_then = len(gs) == 1 and gs[0][1] == "then"
+                same_branch_cmd = in_then and any(x["k"] == "Field" and str(x.get("member")) == "cmd" and P.peel(A.resolve(x["base"], henv.get(id(x)) or henv.get(id(a)))) == base for x in A.walk(gs[0][0]["then"]))
+                ok = okh and val == ("lit", True) and in_then and same_branch_cmd
+                why = f"in helper {h.qname}: `{A.show(base)[:70]}.used = true` in the branch of the target-shell lookup, which also takes that spec's cmd: {ok}"
+                res.check(ok, rule, f"{rule}:{fq2}:used-set-where-taken", why, f"{h.file}:{a['l']}")
+                assigns = None
+                break
+    if assigns is None:
+        pass
+    elif ok:
         a = assigns[0]
         e = env2.get(id(a))
         base = A.resolve(a["left"]["base"], e)
@@ -150,13 +174,21 @@ def book_rules(repo, res, rule="BOOK"):
             t0 = tv[1][0] if tv[0] == "tuple" else tv
             ok = t0[0] == "field" and t0[2] == "cmd" and P.peel(t0[1]) == b
             why += "; the same branch yields spec.cmd" if ok else f"; but the branch yields {A.show(tv)[:80]}"
-    res.check(ok, rule, f"{rule}:{fq2}:used-set-where-taken", why, f"{f2.file}:{arm['l']}")
+    if assigns is not None:
+        res.check(ok, rule, f"{rule}:{fq2}:used-set-where-taken", why, f"{f2.file}:{arm['l']}")
     all_used = []
     for q, f in repo.fns.items():
         for n in A.walk(f.body):
             if n["k"] == "Assign" and n["left"]["k"] == "Field" and n["left"]["member"] == "used":
                 all_used.append(q)
-    res.check(all_used == [fq2], rule, f"{rule}:used-writers", f".used is written in {all_used}", "")
+    # the only writer is the pass itself, or a lookup helper of the module that only the pass calls
+    def _only_from_pass(q):
+        h = repo.fns.get(q)
+        if h is None or h.module != f2.module:
+            return False
+        callers = [g.qname for g in repo.fns.values() if g is not h and list(P.find_calls(g.body, names={h.name}))]
+        return callers == [fq2]
+    res.check(bool(all_used) and all(q == fq2 or _only_from_pass(q) for q in all_used), rule, f"{rule}:used-writers", f".used is written in {all_used}", "")
 
     # --- resolve_nonterminals, NontermRef arm: a reference that is expanded counts as a use
     fq3 = "check::resolve_nonterminals"
